@@ -417,7 +417,13 @@ func StartWatchdog(limit time.Duration, onHang func(c Case, structural bool, whe
 				}
 				continue
 			}
-			if burnt := now - since; burnt > limit {
+			// a case that allows N > ManyIts open iterators costs up to O(N^2) list steps by design (N iterators, each stepping
+			// over a run of up to N pinned removed entries): tens of thousands of them take seconds, not milliseconds
+			lim := limit
+			if r.many {
+				lim *= time.Duration(1 + min(r.c.MaxIt/2048, 15))
+			}
+			if burnt := now - since; burnt > lim {
 				c := r.c
 				c.Ops = append([]Op(nil), c.Ops...)
 				onHang(c, r.structural, fmt.Sprintf("op #%d of %d (%s)", r.step, len(c.Ops), r.phase), burnt)
